@@ -17,6 +17,7 @@ WORK = os.path.join(VERIF, ".work")
 REPO = "/repo"
 DRIVER = os.path.join(LEAN, ".lake", "build", "bin", "driver")
 VHARNESS = os.path.join(HARNESS, "target", "release", "vharness")
+SCENARIO_BIN = {"history": "vharness_hist", "custom": "vharness_custom", "casts": "vharness_casts"}
 ALLOWED_AXIOMS = {"propext", "Classical.choice", "Quot.sound"}
 
 TRUSTED_BASE = [
@@ -203,12 +204,17 @@ def lake_build(targets):
     return rc == 0, out
 
 
-def cargo_build():
+def cargo_build(bins=("vharness",)):
+    """builds the protocol runner (and the scenario binaries a property needs) against /repo's working tree.  One binary per
+    scenario, built separately: a change that stops one scenario from compiling leaves the others usable."""
     lk = _lock()
     try:
         if not os.path.exists(os.path.join(HARNESS, "Cargo.lock")):
             sh(["cp", os.path.join(REPO, "Cargo.lock"), os.path.join(HARNESS, "Cargo.lock")])
-        rc, out = sh(["cargo", "build", "--release", "--offline"], cwd=HARNESS)
+        cmd = ["cargo", "build", "--release", "--offline"]
+        for b in bins:
+            cmd += ["--bin", b]
+        rc, out = sh(cmd, cwd=HARNESS)
     finally:
         lk.close()
     return rc == 0, out
@@ -355,7 +361,8 @@ def run_impl_only(prop, lines, tag="oracle"):
 
 def run_sub(args, timeout=3600):
     """run a harness subcommand, return its stdout lines"""
-    p = subprocess.run([VHARNESS] + [str(a) for a in args], stdout=subprocess.PIPE, stderr=subprocess.PIPE, text=True,
+    exe = os.path.join(HARNESS, "target", "release", SCENARIO_BIN[args[0]])
+    p = subprocess.run([exe] + [str(a) for a in args[1:]], stdout=subprocess.PIPE, stderr=subprocess.PIPE, text=True,
                        timeout=timeout)
     if p.returncode != 0:
         raise BuildError(f"vharness {args} failed rc={p.returncode}: {p.stderr[-2000:]}")
